@@ -603,7 +603,7 @@ func TestC02(t *testing.T) {
 		"every rejected case of: token sequences enumerated after canonical prefixes, token soups, mutated fixtures, fixtures in LF / CRLF / CR (file, index bounds, line and quote recomputed from the index alone), and valid generated documents x one injected fault of every C11 kind x newline convention x a cut into included files up to the tier's depth (same file set rendered with random styles): the diagnostic must lie in the file and span of an offending directive and Error() must be message + fault file:line + one includer:line per enclosing INCLUDE, innermost first; non-trivial = diagnostic not on line 1; distinct by project text",
 		"line / quote reference is defined for files with one newline convention; for mixed conventions only ranges are checked", "offending spans come from the document model (as in C11)")
 	defer vlib.CleanupScratch()
-	req := []string{"lex:bad-keyword-letter", "lex:stray-close-paren", "lex:illegal-byte", "lex:schema-syntax", "lex:bad-escape", "lex:unclosed-paren-at-eof", "rejected", "nl:LF", "nl:CRLF", "nl:CR", "fault-at-include-depth:0", "fault-at-include-depth:1", "fault-at-include-depth:2", "trace-checked"}
+	req := []string{"lex:bad-keyword-letter", "lex:stray-close-paren", "lex:illegal-byte", "lex:schema-syntax", "lex:bad-escape", "lex:unclosed-paren-at-eof", "rejected", "nl:LF", "nl:CRLF", "nl:CR", "fault-at-include-depth:0", "fault-at-include-depth:1", "fault-at-include-depth:2", "trace-checked", "include-project", "diagnostic-in-empty-file"}
 	h.Require(req...)
 	// failing inputs of the native fuzz arm (thorough tier, driver-run) replay through this campaign
 	vlib.Enum(h, "native-fuzz", false, func(func(string) bool) {}, c02Bytes)
@@ -657,6 +657,60 @@ func TestC02(t *testing.T) {
 		return rapid.SampledFrom(vlib.Prefixes).Draw(t, "prefix") + vlib.GenTokenSoup(t, 14)
 	}, c02Bytes)
 
+	// hostile include graphs (empty, missing, directory, self- and mutually
+	// including files, parentheses around INCLUDE): wherever the diagnostic is
+	// located, file / index / line / quote must agree with that file's bytes,
+	// and every trace entry must be a line of a project file - the first one the
+	// diagnostic's own line, the others lines that hold an INCLUDE
+	vlib.Rapid(h, "include-projects", h.N(6000, 300000), vlib.GenIncludeProject, func(p vlib.Project, info *vlib.Info) *vlib.Failure {
+		dir := vlib.Materialise(p)
+		defer removeAll(dir)
+		res := vlib.RunIn(p, dir)
+		if res.Err == nil || res.Panic != "" {
+			return nil
+		}
+		info.Class("rejected")
+		info.Class("include-project")
+		info.NonTrivial = res.Err.File != "root.jst"
+		if res.Err.File != "" && p.Files[res.Err.File] == "" {
+			info.Class("diagnostic-in-empty-file")
+		}
+		show := func() string {
+			var sb strings.Builder
+			for n, t := range p.Files {
+				fmt.Fprintf(&sb, "=== %s\n%s\n", n, trunc(t, 600))
+			}
+			return sb.String()
+		}
+		if f := vlib.CheckLocation(res.Err, p.Files); f != nil {
+			f.Msg += "\n" + show()
+			return f
+		}
+		lines := strings.Split(vlib.RelTrace(res.Err.Full, dir), "\n")[strings.Count(res.Err.Msg, "\n")+1:]
+		for i, l := range lines {
+			k := strings.LastIndex(l, ":")
+			if k < 0 {
+				return vlib.Failf("include-trace-shape", "trace entry %q is not file:line\n%s", l, show())
+			}
+			file, ln := l[:k], atoi(l[k+1:])
+			content, ok := p.Files[file]
+			if !ok {
+				return vlib.Failf("include-trace-file", "trace entry %q names no file of the project\n%s", l, show())
+			}
+			all := strings.Split(strings.ReplaceAll(strings.ReplaceAll(content, "\r\n", "\n"), "\r", "\n"), "\n")
+			if ln < 1 || ln > len(all) {
+				return vlib.Failf("include-trace-line", "trace entry %q: %s has %d lines\n%s", l, file, len(all), show())
+			}
+			if i == 0 {
+				if file != res.Err.File || ln != res.Err.Line {
+					return vlib.Failf("include-trace-first", "the first trace entry %q is not the diagnostic's own place %s:%d\n%s", l, res.Err.File, res.Err.Line, show())
+				}
+			} else if !strings.Contains(all[ln-1], "INCLUDE") {
+				return vlib.Failf("include-trace-line", "trace entry %q: line %d of %s holds no INCLUDE (%q)\n%s", l, ln, file, all[ln-1], show())
+			}
+		}
+		return nil
+	})
 	vlib.Rapid(h, "lexical-faults", h.N(10000, 400000), genLexFault, c02LexCheck)
 
 	maxDepth := h.Pick(3, 6)
